@@ -1,7 +1,7 @@
 #!/bin/bash
 # Runs every registered check (default tier quick) and prints a one-line summary per property.
 tier=${1:-quick}
-for p in C01 C02 C03 C04 C05 C06 C07 C08 C09 C10 C11 C12 C13 C14 C15 C16 C17 C19 C20; do
+for p in ${PROPS:-C01 C02 C03 C04 C05 C06 C07 C08 C09 C10 C11 C12 C13 C14 C15 C16 C17 C19 C20}; do
   start=$(date +%s)
   /verif/bin/check $p --tier $tier > /verif/out/$p.$tier.log 2>&1
   rc=$?
